@@ -37,6 +37,8 @@ func nsAlphabet() []fsx.Op {
 	al = append(al,
 		fsx.Op{K: "MKDIR", H: "root", N: "d"},
 		fsx.Op{K: "RMDIR", H: "root", N: "d"},
+		fsx.Op{K: "REMOVE", H: "root", N: "d"},
+		fsx.Op{K: "RMDIR", H: "root", N: "a"},
 		fsx.Op{K: "SYMLINK", H: "root", N: "s", Target: "a/b"},
 		fsx.Op{K: "REMOVE", H: "root", N: "s"},
 		fsx.Op{K: "RENAME", H: "root", N: "a", H2: "root", N2: "c"},
